@@ -114,10 +114,13 @@ int main() {
                 d->m_single = (workers == 1);
                 std::vector<std::thread> ps;
                 for (int p = 0; p < producers; ++p)
-                    ps.emplace_back([=] { std::mt19937 r(seed * 31 + p); for (int i = 0; i < per; ++i) { jitter(r); logev("d" + std::to_string(p) + "." + std::to_string(i)); d->dispatch(Item{p, i}); } });
-                if (mode == 0) {
+                    ps.emplace_back([=] { std::mt19937 r(seed * 31 + p); for (int i = 0; i < per; ++i) { jitter(r); logev("d" + std::to_string(p) + "." + std::to_string(i)); d->dispatch(Item{p, i});
+                        // mode 2: an empty pointer handed to dispatch(ptr_type&) in between (a pointer already moved from): it is
+                        // no item - the workers skip it and keep serving
+                        if (mode == 2 && i == 0) { Disp::ptr_type none; d->dispatch(none); } } });
+                if (mode == 0 || mode == 2) {
                     for (auto& t : ps) t.join();
-                    auto deadline = std::chrono::steady_clock::now() + std::chrono::seconds(20);
+                    auto deadline = std::chrono::steady_clock::now() + std::chrono::seconds(mode == 2 ? 4 : 20);
                     while (d->handled.load() < producers * per && std::chrono::steady_clock::now() < deadline) std::this_thread::sleep_for(std::chrono::microseconds(100));
                 } else {
                     std::mt19937 r(seed + 7); jitter(r); jitter(r);
